@@ -217,6 +217,73 @@ theorem assign_absent (l : List (K × V)) (k : K) (v : V) (h : hasKey l k = fals
     assign l k v = l ++ [(k, v)] := by
   simp [assign, h]
 
+/-! ### Laws of the specification's operations, as the property text states them
+(each lifts to the two-representation model through `C10_history` / `C10_observers`) -/
+
+/-- after assignment the key has exactly one value, the assigned one. -/
+theorem assign_values (l : List (K × V)) (k : K) (v : V) :
+    valuesOf (assign l k v) k = [v] := by
+  unfold assign
+  by_cases h : hasKey l k = true
+  · simp [h, valuesOf_replaceFirst]
+  · have h' : hasKey l k = false := by simpa using h
+    have := (hasKey_false_iff l k).1 h'
+    simp [h', valuesOf_append, this, valuesOf_single]
+
+/-- assignment leaves the values of every other key as they were. -/
+theorem assign_other (l : List (K × V)) (k k' : K) (v : V) (hne : k ≠ k') :
+    valuesOf (assign l k v) k' = valuesOf l k' := by
+  unfold assign
+  by_cases h : hasKey l k = true
+  · simp [h, valuesOf_replaceFirst, hne]
+  · have h' : hasKey l k = false := by simpa using h
+    simp [h', valuesOf_append, valuesOf_single, hne]
+
+/-- deletion by key removes every occurrence … -/
+theorem remove_hasKey (l : List (K × V)) (k : K) : hasKey (remove l k) k = false := by
+  rw [hasKey_false_iff, valuesOf_remove]; simp
+
+/-- … and nothing else. -/
+theorem remove_other (l : List (K × V)) (k k' : K) (hne : k ≠ k') :
+    valuesOf (remove l k) k' = valuesOf l k' := by
+  rw [valuesOf_remove]; simp [hne]
+
+/-- deleting twice is deleting once (discard is idempotent). -/
+theorem remove_idem (l : List (K × V)) (k : K) : remove (remove l k) k = remove l k := by
+  simp [remove, List.filter_filter]
+
+/-- deletion keeps the relative order of the remaining pairs. -/
+theorem remove_sublist (l : List (K × V)) (k : K) : (remove l k).Sublist l := by
+  simp [remove]
+
+/-- assigning the same pair twice is assigning it once. -/
+theorem assign_idem (l : List (K × V)) (k : K) (v : V) :
+    assign (assign l k v) k v = assign l k v := by
+  by_cases h : hasKey l k = true
+  · -- present: split at the first occurrence
+    have : ∃ pre post v0, l = pre ++ (k, v0) :: post ∧ hasKey pre k = false := by
+      clear v
+      induction l with
+      | nil => simp [hasKey] at h
+      | cons p r ih =>
+        by_cases hp : p.1 = k
+        · exact ⟨[], r, p.2, by cases p; simp_all, by simp [hasKey]⟩
+        · have hr : hasKey r k = true := by
+            rw [hasKey_cons] at h; simpa [hp] using h
+          obtain ⟨pre, post, v0, e, hpre⟩ := ih hr
+          refine ⟨p :: pre, post, v0, by simp [e], ?_⟩
+          rw [hasKey_cons]; simp [hp, hpre]
+    obtain ⟨pre, post, v0, e, hpre⟩ := this
+    subst e
+    rw [assign_present pre post k v0 v hpre, assign_present pre (remove post k) k v v hpre,
+      remove_idem]
+  · have h' : hasKey l k = false := by simpa using h
+    rw [assign_absent l k v h']
+    have := assign_present l [] k v v h'
+    simpa [remove] using this
+
+example : assign [(1, 10), (2, 20), (1, 11)] 1 (99 : Nat) = [(1, 99), (2, 20)] := by decide
+
 /-- Non-vacuity: a concrete history with duplicates inserted in the middle. -/
 example :
     (run (empty : OMD Nat Nat)
